@@ -36,10 +36,14 @@ structure Cfg where
   /-- `SimulationScenario.__init__` / `configure_settings`: a run-spec override is taken over iff its KEY is present
   (true), or iff its value is truthy (false: `runspecs.get(key) or self.key` — `starttime: 0` is ignored) -/
   overrideByPresence : Bool := true
+  /-- an evaluation reads a graphical function from the scenario model's CURRENT `points` table (true), or from a
+  derived copy built on first use that only `Model.reset_cache()` drops — a path the settings channels never take
+  (false: `Model._lookup_tables`) -/
+  evalReadsCurrent : Bool := true
 deriving DecidableEq, Repr
 
 def Cfg.good (c : Cfg) : Bool :=
-  c.runspecStartApplied && c.fileRunspecsKept && c.scenarioOwnsDicts && c.overrideByPresence
+  c.runspecStartApplied && c.fileRunspecsKept && c.scenarioOwnsDicts && c.overrideByPresence && c.evalReadsCurrent
 
 /-- scenario-level settings -/
 structure Settings where
@@ -107,6 +111,36 @@ def applyTo (c : Cfg) (m : ModelSt) (s : Settings) : ModelSt :=
 /-- value a simulation reads for constant `k`: the override, else the model's own (`none`) -/
 def ModelSt.const (m : ModelSt) (k : Nat) : Option Nat := Store.get m.eqs k
 def ModelSt.points (m : ModelSt) (k : Nat) : Option Nat := Store.get m.pts k
+
+/-! ### application reaches evaluation (wave 6)
+
+The model object between evaluations: `tab` = tables derived from `points` on first use.  The settings channels
+(`SdRunner` → `change_points` / `change_equation` / `change_runspecs`, after `SimulationScenario.reset_cache`, which empties
+`model.memo` by hand) write the model's settings and never call `Model.reset_cache()`. -/
+structure EvSt where
+  m : ModelSt
+  tab : Store
+deriving DecidableEq, Repr
+
+inductive EOp where
+  | apply (s : Settings)      -- settings supplied (registration, session settings, REST settings) and applied by the runner
+  | eval                      -- a run / a session step / a REST run evaluates the scenario
+  | modelReset                -- `Model.reset_cache()` (modelling API; not on any settings path)
+deriving Repr
+
+/-- the table an evaluation uses for graphical function `k` -/
+def readPts (c : Cfg) (st : EvSt) (k : Nat) : Option Nat :=
+  if c.evalReadsCurrent then st.m.points k
+  else match Store.get st.tab k with
+    | some v => some v
+    | none => st.m.points k
+
+def estep (c : Cfg) (st : EvSt) : EOp → EvSt
+  | .apply s => { st with m := applyTo c st.m s }
+  | .eval => { st with tab := if c.evalReadsCurrent then st.tab else Store.fill st.tab st.m.pts }
+  | .modelReset => { st with tab := [] }
+
+def eexec (c : Cfg) (m : ModelSt) (ops : List EOp) : EvSt := ops.foldl (estep c) { m := m, tab := [] }
 
 /-- `scenario ⊕ base`: the scenario's value wins, the base fills -/
 def oplus (scn base : Store) (k : Nat) : Option Nat :=
